@@ -687,7 +687,9 @@ def members(repo, recipe):
         if not st or '(' in st.split('=')[0] and not re.search(r'\[\s*\w*\s*\]', st):
             if '(' in st:
                 continue
-        if st.startswith(('typedef', 'friend', 'using', 'static', 'enum', 'struct', 'class', 'template')):
+        if st.startswith(('typedef', 'friend', 'using', 'static', 'template')):
+            continue
+        if st.startswith(('enum', 'struct', 'class')) and len(st.split()) < 3:
             continue
         decl_names = re.findall(r'[\*&\s,]([A-Za-z_]\w*)\s*(?:\[[^\]]*\])?\s*(?:=[^,]*)?(?=,|$)', ' ' + st)
         hit = [n for n in decl_names if n in want]
